@@ -11,7 +11,9 @@
 //!          (as `Typechecker::typecheck_by_request_env` produced it) + `to_typed` pruning, against Rust's manifest of the
 //!          singleton policy set (serde/JSON form, canonicalised modulo hash-map order);
 //!      `(mslice <schema> <reqtype> <rtrie> <request> <entities>)`: the model's slice against `slice_entities`
-//!          (canonical stores).
+//!          (canonical stores);
+//!      `(mspec …same…)`: the model's slice satisfies the specification that Thm/C17.lean's soundness theorem assumes
+//!          (sub-store + covers the trie), expected reply `(spec ok)`.
 //! Counters: slices strictly smaller than the store (entities / attributes / ancestors dropped), manifest failures by
 //! reason, unsupported-feature rejections, policies per stress family.
 use crate::gen_schema::{self as gs, SchemaSpec, SchemaWorld, STy, Uid};
@@ -1013,6 +1015,10 @@ fn check_request(out: &mut Out, cx: &SetCtx<'_>, req: &ast::Request, req_text: &
             let trie = tries.get(&rt).cloned().unwrap_or_else(|| "none".to_string());
             out.line(format!("(mslice {} {rt} {trie} {req_sx} {fsx})", cx.ssx), ssx_.clone(), format!("{} slice for request {req_text} policies=[{}]", cx.cname, cx.set_text));
             out.count("mslice_lines");
+            if trie != "none" {
+                out.line(format!("(mspec {} {rt} {trie} {req_sx} {fsx})", cx.ssx), "(spec ok)".into(), format!("{} slice specification (SubStore, CoverRoots) for request {req_text} policies=[{}]", cx.cname, cx.set_text));
+                out.count("mspec_lines");
+            }
             out.nontrivial(&format!("s|{trie}|{ssx_}"));
         }
     }
